@@ -929,10 +929,24 @@ pub fn write(spec: &FileSpec, ch: &mut Chooser) -> (Vec<u8>, Layout) {
                 w.put(b"\nendstream\nendobj\n");
             }
         }
+        // the offset may be written with leading zeros (producers that reserve a fixed-width field and patch it
+        // in later); option 2 is that style with CR LF line ends, the longest legal distance between the keyword
+        // and %%EOF for a given offset
+        let pad = w.ch.choose("num.startxref", 3);
         w.put(b"startxref");
-        w.eol("eol.startxref");
-        w.put(format!("{}", xref_at).as_bytes());
-        w.eol("eol.startxref_value");
+        if pad == 2 {
+            w.put(b"\r\n");
+            w.put(format!("{:010}", xref_at).as_bytes());
+            w.put(b"\r\n");
+        } else {
+            w.eol("eol.startxref");
+            if pad == 1 {
+                w.put(format!("{:010}", xref_at).as_bytes());
+            } else {
+                w.put(format!("{}", xref_at).as_bytes());
+            }
+            w.eol("eol.startxref_value");
+        }
         w.put(b"%%EOF");
         match w.ch.choose("file.tail", 3) {
             1 => w.put(b"\n"),
